@@ -145,7 +145,13 @@ struct Client {
     done: bool,
 }
 
+mod findings;
+
 fn main() {
+    let args: Vec<String> = std::env::args().collect();
+    if args.len() > 2 && args[1] == "finding" {
+        std::process::exit(findings::run(&args[2]));
+    }
     let mut input = String::new();
     std::io::stdin().read_to_string(&mut input).unwrap();
     let mut cap: Option<usize> = None;
